@@ -5,7 +5,7 @@ import os
 from .model import AnalysisError
 from .report import VERIF
 from .callgraph import closure
-from .rules import r1_resolve, r2_none, r3_ctor, r9_purity, r4_predicates, r5_arghandler
+from .rules import r1_resolve, r2_none, r3_ctor, r9_purity, r4_predicates, r5_arghandler, r6_dispatch, r7_binary
 
 _anch = None
 
@@ -139,3 +139,37 @@ def c_dev7(run):
 
 
 CHECKS['DEV7'] = c_dev7
+
+
+def c08(run):
+    prog = run.prog
+    r6_dispatch.run_r6(run)
+    run.exhaustive = True
+    r7_binary.run_r7(run, helpers=False, dunders=True)
+    dund = [f for f in prog.analysed_functions() if f.cls is not None and f.name in r7_binary.BIN_DUNDERS]
+    fs = closure(anchors(run, 'C08') + dund, depth=1 if run.tier == 'quick' else None, prog=prog)
+    r2_none.run_r2(run, fs)
+    r1_resolve.run_r1(run, fs)
+    run.floor('R6', 2000)
+    run.floor('R7', 60)
+    run.explanation = ('Rule R6 enumerates the complete operator table -- 10 operators x every ordered pair over the 16 '
+                       'public classes plus int, float, list, tuple, ndarray with at least one library operand -- '
+                       'resolves the method Python calls for each cell (forward dunder through the MRO including the '
+                       'parsed stdlib UserList, reflected fallback, subclass priority) and abstractly interprets the '
+                       'method bodies with the operand classes known exactly and lengths/shapes/values unknown. Each '
+                       'cell is compared with the documented table (DESIGN.md appendix B): a must-raise cell is a '
+                       'violation when a statically definite path returns a value, None, an identity built from a None '
+                       'result, or an object holding foreign elements, or when the pairing was rejected by type '
+                       'dispatch in the confirmed table and no longer is; a documented cell is a violation when it '
+                       'definitely returns the wrong class/None or always raises. R2/R1/R7 cover every binary dunder and '
+                       'helper (no silent None, no unresolved name, result depends on both operands). exhaustive=true '
+                       'refers to the dispatch abstraction: the finite cell space is enumerated completely; cells whose '
+                       'outcome depends on numeric shape tests are reported as undecided, not as discharged.')
+    run.assume('lengths, shapes and numeric values of operands are unknown (both branches explored)',
+               'ndarray as the LEFT operand is excluded: numpy coercion of sequence-like objects decides those cells',
+               'helper inlining depth 4; assert-based rejections count as raises (disabled under python -O)',
+               'a comprehension over an operand is assumed to iterate at least once')
+    run.trust(*STATIC_TRUST, 'collections.UserList source as shipped with the interpreter running the analyser')
+
+
+CHECKS['C08'] = c08
